@@ -330,7 +330,11 @@ func newC16Env(r *Run, line string, w int, lg, salt uint64) *c16Env {
 		p.AcceptHook(&c16Hook{e: e, kind: k})
 	}
 	e.pt = vm.NewPageTable(lg)
-	for pid := uint64(0); pid < 8; pid++ {
+	pids := []uint64{0, 1, 2, 3, 4, 5, 6, 7}
+	for k := uint64(1); k <= 3; k++ {
+		pids = append(pids, (1<<lg)+k) // process IDs as large as a page: bits overlap the page number
+	}
+	for _, pid := range pids {
 		for vpn := uint64(0); vpn < 8; vpn++ {
 			e.pt.Insert(vm.Page{PID: vm.PID(pid), VAddr: vpn << lg, PAddr: (salt + vpn*8 + pid) << lg,
 				PageSize: 1 << lg, Valid: true, DeviceID: 1})
@@ -573,6 +577,9 @@ func c16GenAccess(rng *Rng, lg uint64, pidBias, vpnBias int) string {
 	pid := rng.Range(1, 3)
 	if rng.Chance(40) {
 		pid = pidBias
+	}
+	if rng.Chance(12) {
+		pid = int(ps) + rng.Range(1, 3)
 	}
 	off := uint64(rng.Pick(0, 0, 1, int(ps-1), int(ps/2), rng.Intn(int(ps))))
 	va := vpn*ps + off
